@@ -844,6 +844,15 @@ func scVoteRace(d *Driver) {
 	if len(ups) < 2 {
 		return
 	}
+	allPreVote := true
+	for _, n := range ups {
+		if !n.Cfg.PreVote || !n.Cfg.Initial {
+			allPreVote = false
+		}
+	}
+	if allPreVote && len(ups) == 3 && pct(d.r, 50) {
+		scLateVote(d, ups)
+	}
 	if pct(d.r, 50) {
 		if l := d.elect(200); l != nil && pct(d.r, 50) {
 			d.propose(l, 1+d.r.Intn(2), false)
@@ -879,6 +888,50 @@ func scVoteRace(d *Driver) {
 	p := calm
 	p.Restart = 10
 	d.with(p, 80)
+}
+
+// PreVote: two candidates of the same term; the third node learns that term from a rejected pre-vote
+// (without voting), then grants its vote - a HardState change of the vote alone -, crashes before
+// anything else is written, and is asked for its vote in that term again
+func scLateVote(d *Driver, ups []*AppNode) {
+	d.r.Shuffle(len(ups), func(i, j int) { ups[i], ups[j] = ups[j], ups[i] })
+	c1, c2, v := ups[0].ID, ups[1].ID, ups[2].ID
+	d.loseUnsynced = true
+	d.holdTypes[pb.MsgVote] = true
+	for _, c := range []uint64{c1, c2} {
+		d.c.Do(Step{Act: "Campaign", Node: c})
+		d.runNode(c)
+		d.deliverSel(MsgSel{Type: "PreVote", From: c, To: v})
+		d.runNode(v)
+		d.deliverSel(MsgSel{Type: "PreVoteResp", From: v, To: c})
+		d.runNode(c)
+	}
+	d.dropWhere(func(m *pb.Message) bool { return m.GetType() == pb.MsgPreVote || m.GetType() == pb.MsgPreVoteResp })
+	// v's own pre-campaign is turned down by a candidate that is already in the new term
+	d.c.Do(Step{Act: "Campaign", Node: v})
+	d.runNode(v)
+	d.deliverSel(MsgSel{Type: "PreVote", From: v, To: c1})
+	d.runNode(c1)
+	d.deliverSel(MsgSel{Type: "PreVoteResp", From: c1, To: v})
+	d.runNode(v)
+	d.dropWhere(func(m *pb.Message) bool { return m.GetType() == pb.MsgPreVote || m.GetType() == pb.MsgPreVoteResp })
+	// the delayed vote request of the first candidate
+	d.deliverSel(MsgSel{Type: "Vote", From: c1, To: v})
+	d.runNode(v)
+	d.deliverSel(MsgSel{Type: "VoteResp", From: v, To: c1})
+	d.runNode(c1)
+	if pct(d.r, 85) {
+		d.c.Do(Step{Act: "Crash", Node: v, Ok: true})
+		lo, _ := d.c.RestartRange(d.c.Nodes[v])
+		d.c.Do(Step{Act: "Restart", Node: v, Applied: lo})
+	}
+	// ... and that of the second
+	d.deliverSel(MsgSel{Type: "Vote", From: c2, To: v})
+	d.runNode(v)
+	d.deliverSel(MsgSel{Type: "VoteResp", From: v, To: c2})
+	d.runNode(c2)
+	d.releaseHolds()
+	d.with(calm, 40)
 }
 
 // small apply budgets, mixed entry sizes, persistence lagging behind commit
